@@ -52,6 +52,7 @@ type Ctx struct {
 	globalUsers map[*ssa.Global][]*ssa.Function
 	eff         *effects
 	errGlobalMemo map[*ssa.Global]bool
+	mx            *matrix
 	funcDecls map[*types.Func]*ast.FuncDecl
 	prof      *Profile
 	profErr   []string
